@@ -15,11 +15,15 @@ func checkC08(p *Program, r *Reporter) {
 	r.Rule("E3-A", "integer / and % with a request-controlled divisor: divisor proven non-zero", 40)
 	e.classA("E3-A", e.fns)
 	r.Rule("E3-B1", "constant index/slice bound on request-derived slice/string: length proven", 10)
+	r.Rule("E3-B1p", "constant index into the result of a repository function with an explicit nil return: length tested", 1)
 	r.Rule("E3-B2", "request-controlled index/slice bound: 0 <= i < len proven", 3)
 	r.Rule("E3-B4", "slice to array conversion of request-derived slice: length proven", 0)
 	e.classB("E3-B", e.fns)
 	r.Rule("E3-C", "explicit panic not reachable under a request-controlled condition", 5)
 	e.classC("E3-C", e.fns)
-	r.Rule("E3-E", "type assertion without comma-ok: every concrete type reaching it satisfies the asserted type", 2)
+	r.Rule("E3-E", "type assertion without comma-ok: every concrete type reaching it satisfies the asserted type", 1)
 	e.classE("E3-E", e.fns)
+	r.Rule("E3-D1", "pointer result of a repository function that may return nil: tested (or its error tested) before dereference", 0)
+	r.Rule("E3-D2", "pointer field that is nil-tested somewhere (or a parameter fed from one): non-nil test dominates every dereference", 10)
+	e.classD("E3-D", e.fns)
 }
